@@ -119,9 +119,17 @@ def cleanComps : List String → Path → Path
     else if c = "." ∨ c = "" then cleanComps cs acc
     else cleanComps cs (acc ++ [c])
 
+/-- split at every `/` (structural, so that the kernel can evaluate it) -/
+def splitSlash : List Char → List Char → List String
+  | [], acc => [String.ofList acc.reverse]
+  | c :: cs, acc =>
+    if c = '/' then String.ofList acc.reverse :: splitSlash cs [] else splitSlash cs (c :: acc)
+
 /-- absolute path string → cleaned component list; `none` for relative paths -/
 def parsePath (s : String) : Option Path :=
-  if s.startsWith "/" then some (cleanComps (s.splitOn "/") []) else none
+  match s.toList with
+  | '/' :: cs => some (cleanComps (splitSlash cs []) [])
+  | _ => none
 
 def isInfixChars : List Char → List Char → Bool
   | [], _ => true
